@@ -82,6 +82,25 @@ func (bc *boundsChecker) proveLE(a *Arith, v Lin, w Lin, k int64, pt point) bool
 	return a.ProveValLE(v.add(w, -1), k, pt)
 }
 
+// RunIndexOnly: the index and slice expressions of fns only.
+func (bc *boundsChecker) RunIndexOnly(ruleB string, fns []*ssa.Function) {
+	for _, fn := range fns {
+		a := bc.ar(fn)
+		for _, b := range fn.Blocks {
+			for _, in := range b.Instrs {
+				switch x := in.(type) {
+				case *ssa.IndexAddr:
+					bc.checkIndex(ruleB, fn, a, in, x.X, x.Index, pointOf(in))
+				case *ssa.Index:
+					bc.checkIndex(ruleB, fn, a, in, x.X, x.Index, pointOf(in))
+				case *ssa.Slice:
+					bc.checkSlice(ruleB, fn, a, x, pointOf(in))
+				}
+			}
+		}
+	}
+}
+
 func (bc *boundsChecker) Run(ruleB, ruleD string, fns []*ssa.Function) {
 	m := bc.m
 	for _, fn := range fns {
@@ -313,6 +332,24 @@ func (bc *boundsChecker) checkIndex(rule string, fn *ssa.Function, a *Arith, in 
 							bc.s.OK(rule, key, m.InstrPos(in), "what is not proven here is established at all %d call sites on the same field of the argument", n)
 							return
 						}
+					}
+				}
+			}
+		}
+	}
+	// the library's binary search: `i, found := slices.BinarySearch*(s, ...)` — under found, i indexes s (and the
+	// array s is the whole of)
+	if ex, isEx := idx.(*ssa.Extract); isEx && ex.Index == 0 {
+		if c, isC := ex.Tuple.(*ssa.Call); isC && c.Call.StaticCallee() != nil && strings.HasPrefix(fnFullName(c.Call.StaticCallee()), "slices.BinarySearch") && len(c.Call.Args) >= 1 {
+			same := c.Call.Args[0] == X
+			if sl, isSl := c.Call.Args[0].(*ssa.Slice); isSl && sl.Low == nil && sl.High == nil && sl.Max == nil && sl.X == X {
+				same = true
+			}
+			if same {
+				for _, f := range pt.facts {
+					if fe, isFE := f.Cond.(*ssa.Extract); isFE && fe.Tuple == ex.Tuple && fe.Index == 1 && f.Holds {
+						bc.s.OK(rule, key, m.InstrPos(in), "the index is what the library's binary search over this very sequence found (used under its found result)")
+						return
 					}
 				}
 			}
